@@ -394,7 +394,14 @@ class _resolve_called_lambdas(ast.NodeTransformer):
             lambda_node = node.func
 
             # Ensure the lambda has arguments and a body
-            if len(lambda_node.args.args) == len(node.args):
+            # Inline only when python would bind exactly the positional parameters: keyword
+            # arguments and keyword-only, positional-only, * and ** parameters are left as a call.
+            largs = lambda_node.args
+            if (
+                len(largs.args) == len(node.args)
+                and len(node.keywords) == 0
+                and not (largs.posonlyargs or largs.kwonlyargs or largs.vararg or largs.kwarg)
+            ):
                 arg_map = {
                     lambda_node.args.args[i].arg: self.visit(node.args[i])
                     for i in range(len(lambda_node.args.args))
@@ -404,9 +411,8 @@ class _resolve_called_lambdas(ast.NodeTransformer):
                 result = self.visit(lambda_node.body)
                 self._arg_map_list.pop()
                 return result
-        else:
-            return self.generic_visit(node)
-        return node
+        # Not inlined: the call stays, its parts are still resolved.
+        return self.generic_visit(node)
 
     def visit_Name(self, node: ast.Name) -> Any:
         "Look through the arg map to see if it is a argument"
